@@ -18,8 +18,11 @@
    class) is a leftover: allowed to stay unprotected until an operation adds or covers it.
      InvE H E st := names as in Inv, and  s_cls s = Local -> o_mode o = 0o444 \/ E j k
      leftover_after st o E := E + (unprotected ids of store si)   for o = OReopen si Local
-                              E - {(si, k)}                       for o = OAdd si _ k
-                              E                                   otherwise (no operation adds a leftover)
+                              E                                   for ORot (not a dvc-data operation)
+                              E - covered st o                    for every other operation
+     covered st o = the ids the operation adds or covers, and their store: the id of an external add;
+     the file ids and directory ids of a stage / stage-upload / index save; every id a transfer asks
+     the destination about (requested + expanded); the new ids of a migrate.
    Inv = InvE with no leftovers; histories that never reopen under the local class keep Inv.
 
    Deviation from DESIGN: OReopen and the leftover form of the invariant are additions.  The digest hypotheses are (1) a digest never
@@ -28,7 +31,7 @@
    The state-cache clause of WfOp ("C13's invariant") does not appear because the model hashes
    instead of consulting a cache. *)
 From Coq Require Import NArith List Bool.
-From DvcData Require Import Base.Val Model.Listing Model.StoreOps Proofs.StoreOpsProofs Proofs.StoreOpsProofsExec.
+From DvcData Require Import Base.Val Model.Listing Model.StoreOps Gen.DbAdd Proofs.StoreOpsProofs Proofs.StoreOpsProofsExec Proofs.StoreOpsTie.
 Import ListNotations.
 Open Scope N_scope.
 
@@ -48,7 +51,7 @@ Print Assumptions C01_step.
 
 (* one step of any kind, with leftovers *)
 Theorem C01_step_leftover : forall H, DigestOk H -> forall E st o,
-  InvE H E st -> WfOp H st o -> InvE H (leftover_after st o E) (step H st o).
+  InvE H E st -> WfOp H st o -> InvE H (leftover_after H st o E) (step H st o).
 Proof. intros H [H1 H2]. exact (C01_step_leftover H H1 H2). Qed.
 Print Assumptions C01_step_leftover.
 
@@ -59,6 +62,14 @@ Theorem C01_add_covers : forall H, DigestOk H -> forall E st si b k s o,
   alookup k (s_objs s) = Some o -> o_mode o = mode_ro.
 Proof. intros H [H1 H2]. exact (C01_add_covers H H1 H2). Qed.
 Print Assumptions C01_add_covers.
+
+(* ... and so does every operation of dvc-data with the ids it adds or covers (leftovers included) *)
+Theorem C01_covers : forall H, DigestOk H -> forall E st o s k ob,
+  InvE H E st -> WfOp H st o -> dvc_op o ->
+  nth_error (st_stores (step H st o)) (fst (covered H st o)) = Some s -> s_cls s = Local ->
+  In k (snd (covered H st o)) -> alookup k (s_objs s) = Some ob -> o_mode ob = mode_ro.
+Proof. intros H [H1 H2]. exact (C01_covers H H1 H2). Qed.
+Print Assumptions C01_covers.
 
 (* unbounded: any finite history, and the invariant holds after every step (every prefix) *)
 Theorem C01_history : forall H, DigestOk H -> forall cfg ops n,
@@ -133,6 +144,64 @@ Theorem C01_verifying_transfer_exec : forall E st src dst ids sh,
   InvE H_exec E st -> StemP H_exec (step H_exec st (OTransfer src dst ids sh true)) dst [].
 Proof. exact C01_verifying_transfer_exec. Qed.
 Print Assumptions C01_verifying_transfer_exec.
+
+(* ---- the tie to the source: the add / migrate steps of the model ARE the decisions the translator
+   reads from /repo's HashFileDB.add, add_update_tree and db/migrate.py on every run (Gen/DbAdd.v).
+   g_add / g_migrate (Proofs/StoreOpsTie.v) interpret the GENERATED definitions only. ---- *)
+
+(* odb.add without a verify argument (build, index save, external add): copies as super().add is
+   given them, then the generated post loop - over the distinct requested oids: protect *)
+Theorem C01_tie_add : forall H st si items hl ce,
+  g_add H None model_store_verify hl ce (cp_bytes items) st si (map fst items)
+  = (add_copy st si items ce, false).
+Proof. exact add_copy_tie. Qed.
+Print Assumptions C01_tie_add.
+
+(* add_update_tree: the generated arguments of its add (hardlink, no per-call verify, check_exists) *)
+Theorem C01_tie_tree_add : forall H st si d listing,
+  g_add H tree_add_percall_verify model_store_verify tree_add_hardlink tree_add_check_exists
+        (cp_bytes [(d, listing)]) st si [d]
+  = (add_copy st si [(d, listing)] true, false).
+Proof. exact tree_add_tie. Qed.
+Print Assumptions C01_tie_tree_add.
+
+(* transfer's add with verify=True (new ids only): generated pre-add check (finds nothing), copies,
+   generated post loop: check - a mismatch is removed and handled, a missing file handled - then protect *)
+Theorem C01_tie_add_verify : forall H st si items hl sv,
+  (forall k, In k (map fst items) -> store_has st si k = false) ->
+  g_add H (Some true) sv hl false (cp_bytes items) st si (map fst items)
+  = (add_new H true st si items, false).
+Proof. exact add_new_verify_tie. Qed.
+Print Assumptions C01_tie_add_verify.
+
+Theorem C01_tie_add_noverify : forall H st si items hl sv,
+  g_add H (Some false) sv hl false (cp_bytes items) st si (map fst items)
+  = (add_new H false st si items, false).
+Proof. exact add_new_plain_tie. Qed.
+Print Assumptions C01_tie_add_noverify.
+
+(* statement order of add (the one state transaction after the post loop), swallowed exceptions,
+   handlers *)
+Theorem C01_tie_add_order :
+  add_order = [SEffVerify; SNormalise; SPre; SCopy; SPaths; SPost; SSave; SReturn]
+  /\ pre_swallows = [ExcObjectFormat; ExcFileNotFound]
+  /\ post_handler ExcObjectFormat = Some HReport /\ post_handler ExcFileNotFound = Some HPass
+  /\ copy_reports = true /\ save_over = OidsDistinct /\ save_value = SaveOid.
+Proof. exact add_order_tie. Qed.
+Print Assumptions C01_tie_add_order.
+
+(* migrate(prepare(src, dest)): lists the SOURCE's objects, re-hashes them with the DESTINATION's
+   algorithm from the SOURCE's file system, new oid = digest + ".dir" exactly for ids ending in
+   ".dir", one add INTO the destination with hardlink=True, no per-call verify, check_exists default *)
+Theorem C01_tie_migrate : forall H st src dst order fs_links,
+  migrate_op H st src dst order fs_links = g_migrate H st src dst order fs_links.
+Proof. exact migrate_tie. Qed.
+Print Assumptions C01_tie_migrate.
+
+Theorem C01_tie_migrate_oid : forall k h,
+  migrate_oid k h = h ++ (if is_dir_oid k then dot_dir else []).
+Proof. exact migrate_oid_tie. Qed.
+Print Assumptions C01_tie_migrate_oid.
 
 (* the restriction WfOp cannot simply be dropped: without it the (faithful) model leaves the
    invariant - witness: staging a directory into a sha256 store, the legacy external-output path,
